@@ -186,7 +186,7 @@ func TestVerifC06(t *testing.T) {
 		if !emit {
 			return
 		}
-		r.Emit(l, c.OutcomeString(o)+" sum="+post.String())
+		r.Emit(l, c.OutcomeString(o)+" sum="+post.String()+" diff="+c.DiffString())
 		r.Count("stage:" + o.Stage)
 		r.Count(fmt.Sprintf("ntransfers:%d", len(p.transfers)))
 		// ---- oracle: sum after = sum before - fee charged (nothing created or destroyed)
@@ -264,11 +264,11 @@ func TestVerifC06(t *testing.T) {
 			}
 			lines = append(lines, fmt.Sprintf("reset m %s %s", uniS, initS))
 			scratch := verifx.NewChain(universe, init) // mirrors the state so that values can be chosen at the boundaries
-			for n := 1 + rng.Intn(4); n > 0; n-- {
+			for n := 2 + rng.Intn(4); n > 0; n-- {
 				tx := &c06Tx{now: now, ts: now + 30000, maxFee: rng.Pick64()}
 				tx.actor = accts[rng.Intn(3)]
 				tx.sponsor = tx.actor
-				if rng.Chance(20) {
+				if rng.Chance(35) {
 					tx.sponsor = accts[rng.Intn(3)]
 				}
 				for d := range tx.prices {
@@ -320,8 +320,20 @@ func TestVerifC06(t *testing.T) {
 				if tx.sponsor == tx.actor && fee.IsUint64() && fee.Uint64() <= bal {
 					bal -= fee.Uint64()
 				}
+				u64of := func(m map[string][]byte, j int) uint64 {
+					v, _ := verifx.U64(m[string(universe[j])])
+					return v
+				}
 				for i := range vals {
-					switch rng.Intn(12) {
+					switch rng.Intn(17) {
+					case 12, 13, 14, 15, 16:
+						// refill the recipient to exactly the balance it had before the block
+						// (it may have been emptied, i.e. its record removed, by an earlier tx)
+						if pre, cur := u64of(init, tos[i]), u64of(vis, tos[i]); pre > cur {
+							vals[i] = pre - cur
+						} else {
+							vals[i] = bal
+						}
 					case 0:
 						vals[i] = 0
 					case 1, 2, 3, 4:
